@@ -405,5 +405,5 @@ def run(chk):
             prog = [("while", s_[1]) if s_[0] == "for" else s_ for s_ in prog]
         cases.append((prog, de))
     chk.add_results("races_and_barrier_counts", pmap(case_prog, cases, chunks=4))
-    chk.bounds = dict(programs=len(cases), nesting="<=2 (+ a family with sibling inner loops / conditionals in one outer loop)", unroll_K=2, buffers="2 arguments + 3 allocations (i32), 1 argument + 2 allocations (i8), <=3 subviews with offsets in {0,4,symbolic 0..4}")
+    chk.bounds = dict(programs=len(cases), nesting="<=2 (+ a family with sibling inner loops / conditionals in one outer loop; + a family whose outermost loops are scf.while)", unroll_K=2, buffers="2 arguments + 3 allocations (i32), 1 argument + 2 allocations (i8), <=3 subviews with offsets in {0,4,symbolic 0..4}")
     chk.outside = ["more than 2 loop iterations", "views created inside loops"]
